@@ -137,11 +137,21 @@ def r1_handlers(report, repo):
 
     def selected(node):
       """node is reached only for a handler that passed both tests"""
-      return bool(uid_test) and g.dominated_by_edge(
-          node, lambda s, l, d: s in uid_test and l == 'T') and \
-          g.dominated_by_edge(
-              node, lambda s, l, d: s.kind == 'test' and l == 'T' and
-              call_name(s.ast) == 'isinstance')
+      def uid_edge(s, l, d):
+        if not any(s is u for u in uid_test) or len(s.ast.ops) != 1:
+          return False
+        same = isinstance(s.ast.ops[0], (ast.Is, ast.Eq))
+        return l == ('T' if same else 'F')
+
+      def inst_edge(s, l, d):
+        if s.kind != 'test':
+          return False
+        e, want = s.ast, 'T'
+        if isinstance(e, ast.UnaryOp) and isinstance(e.op, ast.Not):
+          e, want = e.operand, 'F'
+        return call_name(e) == 'isinstance' and l == want
+      return bool(uid_test) and g.dominated_by_edge(node, uid_edge) and \
+          g.dominated_by_edge(node, inst_edge)
     ok = selected(rn)
     arg = rc.args[0] if rc.args else None
     if not ok and isinstance(arg, ast.Name):
